@@ -64,6 +64,16 @@ CHECKS = {
             "All 6x6x6 combinations of ACKNOWLEDGED / DTSTAMP-or-X-MOZ-LASTACK / X-MOZ-SNOOZE-TIME relative to the trigger, for zoned, UTC, floating and date triggers, with the local zone unset / by name / by object, "
             "both providers, three build paths (setters, typed add, parsed) and 1-2 alarms: is_active, the reported trigger, the active sub-list, monotonicity in the acknowledgement and 'only LocalTimezoneMissing' are compared with the statement's table.",
             "trusted: refmodel/alarms.py (10-line decision table); floating/date triggers interpreted in the configured local zone", "3/C15"),
+    "C10": ("exhaustive enumeration of insertion histories (all permutations of all property / parameter subsets, all interleavings of repeated values and subcomponents, nested trees with sorting on and off) with differential comparison of states reached by different histories, plus purity and hash-seed sweeps",
+            "All permutations of every subset (<=5, thorough 6, of 7) of distinct property names on 5 component kinds and of 5 parameters must give byte-identical sorted output and exact insertion order with sorted=False; "
+            "all 144 insertion orders of a 4-level nested tree with sorting on/off; all 120 interleavings keep repeated values/subcomponents in insertion order; purity of to_ical over a 28-value-class menu; "
+            "BEGIN/END balance of every output; identical digests of ~250 trees under 8 (thorough 64) PYTHONHASHSEED values.",
+            "trusted: the byte-level outline/balance parsers in checks/c10.py; hash seeds are a finite range, not all 2^32", "3/C10"),
+    "C20": ("bounded-exhaustive enumeration of all ordered labelled component trees up to 4 (thorough 5) nodes with per-tree traversal, permutation, single-perturbation and copy oracles, and all ordered pairs of trees up to 3 nodes vs. a reference multiset equality",
+            "12 747 trees (thorough ~2.5e5) over 7 kinds: walk/walk(name in 3 cases)/walk(select)/accessors equal the reference pre-order; equality is reflexive, False against non-components, invariant under all "
+            "subcomponent permutations, property insertion order and name case, and distinguishes every single perturbation in both directions; deepcopy/pickle/parse copies are equal and serialise identically; "
+            "550 564 ordered pairs agree with the reference and are symmetric; zone-carrying calendars under both providers.",
+            "trusted: canon()/preorder() reference in checks/c20.py; pickle protocols >= 2; one open finding (pytz custom zones not picklable) matched by exception signature", "3/C20"),
 }
 REASON_PENDING = "check under construction in this session; not claimed until it has been built, silenced on the unchanged tree and shown to detect a seeded change"
 ALL = [f"C{i:02d}" for i in range(1, 21)]
